@@ -231,6 +231,7 @@ func init() {
 		r.Explore(c02Profile(r.Tier))
 		// many transactions per segment: inner nodes in the on-disk key tree and transaction-id tree
 		runKVLong(r, "C02", []core.Cfg{{Mode: core.S, Seg: 392}, {Mode: core.S, Seg: 600}, {Mode: core.S, RW: core.M, Start: core.M, Seg: 410}})
+		runValues(r, "C02", false, []int{core.S})
 	}
 	Registry["C03"] = func(r *Run) {
 		r.Rule = "every sequence of <=depth ops over {put,expiring put,delete} x 4 prefixed keys + tick + reopen in KV, key-only and sparse mode; in every reached state every PrefixScan(prefix,offset,limit) with offset 0..n+1, limit 1..n+1 and every PrefixSearchScan(prefix,re,0,limit) is compared with 'live prefixed keys, skip offset, take limit'"
